@@ -10,6 +10,7 @@ Rust's type system (trusted base).  The correspondence runs the real task handle
 from inside `poll`) and, in the `sched` engine, real benches on 2–8 worker threads with a busy flag per model.
 -/
 import NexoVerif.Lemmas.TaskRunLemmas
+import NexoVerif.Extracted
 
 namespace NexoVerif.TaskM
 set_option linter.unusedSimpArgs false
@@ -79,6 +80,17 @@ theorem runnable_created_only_by_first_wake {s : S} (h : Reach s) (hl : s.live =
       simp at hr
       simp [hc, hr]
   · simp at hne
+
+/-- **a_wake_decides_with_its_own_increment** — what makes `runnable_created_only_by_first_wake` a statement about the
+code: `Task::wake` is one `fetch_add` whose *returned* state decides whether a `Runnable` is created, `clone_waker` one
+`fetch_add`, `Runnable::run` re-checks with a `fetch_sub` after a `Pending` poll — read from the source on every run
+(a decision taken on a separately loaded, possibly stale state word lets two wakers both create a `Runnable`). -/
+theorem a_wake_decides_with_its_own_increment :
+    Extracted.taskOpsTaskWake = [.rmw "state" "fetch_add" .release] ∧
+    Extracted.taskOpsTaskCloneWaker = [.rmw "state" "fetch_add" .relaxed] ∧
+    Extracted.taskOpsRunnableRun = [.load "state" .acquire, .fence .acquire, .cas "state" .release .relaxed,
+      .rmw "state" "fetch_and" .release, .fence .acquire, .rmw "state" "fetch_sub" .acqrel] := by
+  refine ⟨by decide, by decide, by decide⟩
 
 /-! ## non-vacuity -/
 example : (step .rPollBegin { spawn with run := .loaded }).map (fun s => (s.run, s.polls)) = some (.polling, 1) := by decide
